@@ -49,7 +49,7 @@ class C14(Prop):
             t = self.tabs3[k % len(self.tabs3)]
             inputs.append(("tab", ins_to_state(t), k % 4))
             inputs.append(("tab", ins_to_state(self.tabs3[(k * 7 + 1) % len(self.tabs3)]), 0))
-            for name, rows, r in (inputs if thorough else [inputs[k % 5], inputs[(k + 2) % 5]]):
+            for name, rows, r in (inputs if (thorough and len(ids) < 4) else [inputs[k % 5], inputs[(k + 2) % 5]]):
                 yield {"k": "traj", "ids": ids, "init": name, "rows": rows, "r": r, "seed": self.seed * 31337 + k * 16,
                        "mode": ("plain", "layers")[k % 2]}
         # direct MeasureLayer calls
